@@ -52,7 +52,7 @@ register(PropertySpec(
              "a @predicate call inside a block binds its positional arguments by position (also to parameters that have a default)"),
         Rule("CALL-FORWARD", _lazy("extra", "rule_call_forward"), 2,
              "a symbolic method call applies the method with all the positional and keyword arguments it was built with"),
-        Rule("COVERAGE-SUBSUMPTION", _lazy("cacheidx", "rule_coverage_subsumption"), 3,
+        Rule("COVERAGE-SUBSUMPTION", _lazy("cacheidx", "rule_coverage_subsumption"), 4,
              "(shared with C20) result caches are on by default: a coverage test that over-approximates loses rows on re-evaluation of any query"),
         Rule("CLEAR-COMPLETE", _lazy("cacheidx", "rule_clear_complete"), 4,
              "(shared with C20) clearing an index (after an abandoned evaluation; a class's registry store) empties every store and withdraws the coverage marks"),
@@ -64,6 +64,14 @@ register(PropertySpec(
              "with an empty key list (a comparison between two literals) insert() records nothing as covered"),
         Rule("BOUND-AGAIN-TRUTH", _lazy("values", "rule_bound_again_truth"), 2,
              "an expression that finds itself bound already (a condition object used twice) sets its truth flag from the bound value before handing the binding on"),
+        Rule("REPLAY-ONE-ENTRY", _lazy("cacheidx", "rule_replay_one_entry"), 1,
+             "a lookup that leaves a cache key open is answered from the wildcard child or from the children that bind the key, not both (one result is stored under partial and full rows)"),
+        Rule("DECL-FILTER", _lazy("predform", "rule_domain_builders"), 2,
+             "only the confirmed builders hand a supplied domain to a Variable; anywhere else the domain is filtered by the variable's type first"),
+        Rule("SOURCE-NOT-DELEGATED", _lazy("lazy", "rule_source_not_delegated"), 1,
+             "an iteration over a lazily consumed domain does not delegate to the shared one-shot source (closing the iteration would close the source)"),
+        Rule("MEMO-ON-PULL", _lazy("lazy", "rule_memo_on_pull"), 4,
+             "the supplied domain is wrapped lazily, every member of it, and every member pulled is memoised before it is handed out"),
     ],
     explanation="Decides the clause 'the condition vocabulary denotes the ordinary Python operator': the node each "
                 "public comparison/membership entry constructs (arguments mapped to dataclass fields through the MRO "
@@ -103,10 +111,12 @@ register(PropertySpec(
              "a @predicate call inside a block binds its positional arguments by position (also to parameters that have a default)"),
         Rule("VOCAB-DENOTATION", _lazy("opden", "rule_vocab_denotation"), 4,
              "for_all / flatten / concatenate / not_ return, on every path, the node of their name built from their arguments themselves"),
-        Rule("COVERAGE-SUBSUMPTION", _lazy("cacheidx", "rule_coverage_subsumption"), 3,
+        Rule("COVERAGE-SUBSUMPTION", _lazy("cacheidx", "rule_coverage_subsumption"), 4,
              "(shared with C20) result caches are on by default: a coverage test that over-approximates loses rows on re-evaluation of any query"),
         Rule("BOUND-AGAIN-TRUTH", _lazy("values", "rule_bound_again_truth"), 2,
              "an expression that finds itself bound already (a condition object used twice) sets its truth flag from the bound value before handing the binding on"),
+        Rule("BIND-THREAD", _lazy("binding", "rule_bind_thread"), 30,
+             "the operand a negated conjunction / disjunction evaluates under its sibling's row receives the incoming binding too (nesting under an operator that bound a variable already)"),
     ],
     explanation="Negation is a rewrite at construction time, so it is a function on syntax and is decided from the "
                 "source: the inverse-operator table is extracted by abstract evaluation of the setter's CFG (match / if "
@@ -228,8 +238,10 @@ register(PropertySpec(
              "(shared with C20) asking whether a binding is covered does not mark it covered (a sub-query evaluated alone would hide its false rows from a later enclosing query)"),
         Rule("RULE-ON-ENTER", _lazy("ruletree", "rule_rule_on_enter"), 2,
              "a query is flagged as a rule both when it is written inside a rule block and when a rule block is opened on it"),
-        Rule("SHARED-TAIL", _lazy("lazy", "rule_shared_tail"), 1,
+        Rule("SHARED-TAIL", _lazy("lazy", "rule_shared_tail"), 3,
              "an iteration over a lazily consumed domain is handed what other live iterations pulled from the shared source"),
+        Rule("SOURCE-NOT-DELEGATED", _lazy("lazy", "rule_source_not_delegated"), 1,
+             "an iteration over a lazily consumed domain does not delegate to the shared one-shot source (closing the iteration would close the source)"),
     ],
     explanation="History independence is absence of residue on the shared expression nodes. Decided: where residue is "
                 "written (discovered mechanically from dataclass fields and mutation sites reachable from evaluation "
@@ -278,6 +290,12 @@ register(PropertySpec(
              "(shared with C10) a for_all under the() evaluates its condition under the incoming binding"),
         Rule("NO-DOMAIN-MUTATION", _lazy("history", "rule_no_domain_mutation"), 1,
              "(shared with C04) a From object shared by two variables is not rewritten by the first"),
+        Rule("CACHED-POSITION-RESET", _lazy("history", "rule_cached_position_reset"), 1,
+             "the memo of the position-dependent duplicate-suppression keys is dropped, for the class of the node being reset, with the per-evaluation state"),
+        Rule("REPLAY-ONE-ENTRY", _lazy("cacheidx", "rule_replay_one_entry"), 1,
+             "a lookup that leaves a cache key open is answered from the wildcard child or from the children that bind the key, not both (one result is stored under partial and full rows)"),
+        Rule("QUANT-NOT-STRIPPED", _lazy("subquery", "rule_quant_not_stripped"), 1,
+             "where a quantified sub-query is replaced by its selected variable, the quantifier (its conditions) is handed on as well"),
     ],
     explanation="The three outcomes of `the` are decided by a typestate interpretation of its evaluator over the finite "
                 "state space (result None/solution, solutions consumed 0/1/>=2, _is_false_), exception classes resolved "
@@ -317,6 +335,10 @@ register(PropertySpec(
              "for_all / flatten / concatenate / not_ return, on every path, the node of their name built from their arguments themselves"),
         Rule("DECL-FILTER", _lazy("predform", "rule_decl_filter"), 5,
              "(shared with C13) the type filter of a supplied domain is lazy (an eagerly built empty list counts as no domain: the registry) and uses the class being constructed"),
+        Rule("DECL-FILTER", _lazy("predform", "rule_domain_builders"), 2,
+             "only the confirmed builders hand a supplied domain to a Variable; anywhere else the domain is filtered by the variable's type first"),
+        Rule("QUANT-NOT-STRIPPED", _lazy("subquery", "rule_quant_not_stripped"), 1,
+             "where a quantified sub-query is replaced by its selected variable, the quantifier (its conditions) is handed on as well"),
     ],
     explanation="Decides: exactly-one-row by counting yields over all CFG paths; and interface agreement among the "
                 "implementations of the evaluation protocol (a concatenate used where the protocol passes "
@@ -362,6 +384,8 @@ register(PropertySpec(
              "a query is flagged as a rule both when it is written inside a rule block and when a rule block is opened on it"),
         Rule("ALT-LEFT-TRUTH", _lazy("ruletree", "rule_alt_left_truth"), 1,
              "when the branches before an alternative yield no row at all, their truth flag is set to false before the alternative's rows are handed on"),
+        Rule("DEDUP-UNDER-ROW-TRUTH", _lazy("binding", "rule_dedup_under_row_truth"), 5,
+             "a row is tested for being a duplicate under the truth value it is handed on with (the flag is not assigned between the test and the yield)"),
     ],
     explanation="Attaching a branch rewires the condition tree in place; evaluation follows the left/right fields, not "
                 "the graph edges, so a selector that is attached in the graph but not stored in its parent's operand slot "
@@ -401,6 +425,10 @@ register(PropertySpec(
              "whether a domain was supplied is decided by identity with None, never by the truthiness of the user's object"),
         Rule("KWARGS-KEPT", _lazy("extra", "rule_kwargs_kept"), 3,
              "no given keyword (field constraint / constructor argument) is dropped because of its value"),
+        Rule("DECL-FILTER", _lazy("predform", "rule_domain_builders"), 2,
+             "only the confirmed builders hand a supplied domain to a Variable; anywhere else the domain is filtered by the variable's type first"),
+        Rule("MEMO-ON-PULL", _lazy("lazy", "rule_memo_on_pull"), 4,
+             "the supplied domain is wrapped lazily, every member of it, and every member pulled is memoised before it is handed out"),
     ],
     explanation="Decides the construction-time clauses: positional binding re-implemented by the library agrees with "
                 "Python's (finite abstract evaluation of the loop over scenario argument lists), the type filter uses "
@@ -434,7 +462,7 @@ register(PropertySpec(
         Rule("RESULT-NO-ALIAS", cacheidx.rule_result_no_alias, 2,
              "in retrieve() a binding extended per cache branch is a fresh copy per branch, and the accumulator starts "
              "from a copy of the lookup"),
-        Rule("COVERAGE-SUBSUMPTION", _lazy("cacheidx", "rule_coverage_subsumption"), 3,
+        Rule("COVERAGE-SUBSUMPTION", _lazy("cacheidx", "rule_coverage_subsumption"), 4,
              "a stored binding covers a lookup exactly when it is contained in it: per-key test evaluated for same / other / missing"),
         Rule("LEAF-OVERWRITE", _lazy("extra", "rule_insert_reaches_store"), 1,
              "every insert with index=True walks to the leaf and stores the output (no early return for a binding seen before)"),
@@ -442,6 +470,12 @@ register(PropertySpec(
              "the wildcard sentinel, which equals everything, hashes by identity so that no stored key value shares its dict slot"),
         Rule("INSERT-RETRIEVABLE", _lazy("cacheidx", "rule_coverage_only_if_stored"), 1,
              "with an empty key list (a comparison between two literals) insert() records nothing as covered"),
+        Rule("TRIE-NODE-TYPE", _lazy("cacheidx", "rule_trie_node_type"), 1,
+             "the index writer creates inner levels of the type by which the reader tells an inner level from a stored output"),
+        Rule("VALUE-IDENTITY", _lazy("extra", "rule_value_identity"), 5,
+             "two wrapped values are the same exactly when their identifiers agree (equality = the identifier, which the hash is)"),
+        Rule("KEYS-DERIVED-FRESH", _lazy("cacheidx", "rule_keys_derived_fresh"), 1,
+             "whatever the index keeps that was computed from its key list is recomputed when the key list is assigned"),
     ],
     explanation="Decides 'clearing empties it' (the set of fields written by insert is contained in the set reset by "
                 "clear, computed from effects with alias tracking) and one necessary condition of 'each entry paired "
@@ -483,7 +517,7 @@ register(PropertySpec(
              "an operand cache is consulted only under the operand truth values for which it is filled"),
         Rule("CLEAR-COMPLETE", _lazy("cacheidx", "rule_clear_complete"), 4,
              "(shared with C20) invalidating a result cache after an abandoned evaluation also withdraws its coverage marks"),
-        Rule("COVERAGE-SUBSUMPTION", _lazy("cacheidx", "rule_coverage_subsumption"), 3,
+        Rule("COVERAGE-SUBSUMPTION", _lazy("cacheidx", "rule_coverage_subsumption"), 4,
              "a stored binding covers a lookup exactly when it is contained in it: per-key test evaluated for same / other / missing"),
         Rule("CACHE-OPERAND-AGREEMENT", _lazy("cacheidx", "rule_cache_operand_agreement"), 4,
              "an operand cache is keyed by the variables of its operand and stores the rows of its operand"),
@@ -491,6 +525,14 @@ register(PropertySpec(
              "filters that compute the variables identifying a row keep plain variables and one-to-many mappings"),
         Rule("INSERT-RETRIEVABLE", _lazy("cacheidx", "rule_coverage_only_if_stored"), 1,
              "with an empty key list (a comparison between two literals) insert() records nothing as covered"),
+        Rule("SET-ALGEBRA", _lazy("lazy", "rule_set_algebra"), 3,
+             "union / intersection / difference of the value container have the membership table their names say (they compute the variables an operator combines, caches and de-duplicates by)"),
+        Rule("TRIE-NODE-TYPE", _lazy("cacheidx", "rule_trie_node_type"), 1,
+             "the index writer creates inner levels of the type by which the reader tells an inner level from a stored output"),
+        Rule("VALUE-IDENTITY", _lazy("extra", "rule_value_identity"), 5,
+             "two wrapped values are the same exactly when their identifiers agree (equality = the identifier, which the hash is)"),
+        Rule("KEYS-DERIVED-FRESH", _lazy("cacheidx", "rule_keys_derived_fresh"), 1,
+             "whatever the index keeps that was computed from its key list is recomputed when the key list is assigned"),
     ],
     explanation="Decides that the runtime switch governs reads and writes consistently: the asymmetric state (reads "
                 "unguarded, writes guarded) changes results because an empty lookup marks everything covered. Not "
@@ -540,6 +582,10 @@ register(PropertySpec(
              "(shared with C13) the type filter of a supplied domain is lazy (an eagerly built empty list counts as no domain: the registry) and uses the class being constructed"),
         Rule("NO-YIELD-UNDER-MODE", _lazy("modes", "rule_no_yield_under_mode"), 1,
              "(shared with C08) the mode override of a result iterator is not held across a yield: between two results the caller's constructor calls take the caller's arm"),
+        Rule("DECL-FILTER", _lazy("predform", "rule_domain_builders"), 2,
+             "only the confirmed builders hand a supplied domain to a Variable; anywhere else the domain is filtered by the variable's type first"),
+        Rule("EVAL-STATE-RESET", _lazy("history", "rule_eval_state_reset"), 5,
+             "per-evaluation state (e.g. 'this selected variable is inferred') is reset by the end-of-evaluation reset on every exit, so later queries range over the registry again"),
     ],
     explanation="Registry discipline is ownership: a single writer, on a must-pass-through path of the concrete "
                 "constructor arm, keyed by the runtime class; the symbolic arm provably (call-graph closure) cannot "
@@ -579,6 +625,10 @@ register(PropertySpec(
              "for_all / flatten / concatenate / not_ return, on every path, the node of their name built from their arguments themselves"),
         Rule("CLEAR-COMPLETE", _lazy("cacheidx", "rule_clear_complete"), 4,
              "(shared with C20) clearing an index (after an abandoned evaluation; a class's registry store) empties every store and withdraws the coverage marks"),
+        Rule("ROW-KEY-CANONICAL", _lazy("forall", "rule_row_key_canonical"), 2,
+             "a hashable key built from the content of a row does not depend on the order in which the row was built (sorted / frozenset)"),
+        Rule("TRIE-NODE-TYPE", _lazy("cacheidx", "rule_trie_node_type"), 1,
+             "the index writer creates inner levels of the type by which the reader tells an inner level from a stored output"),
     ],
     explanation="Universal quantification is implemented as a running intersection; that the accumulated set can only "
                 "shrink, is seeded once and is emptied by a value with no satisfying binding is a typestate property of "
@@ -615,6 +665,8 @@ register(PropertySpec(
              "a symbolic method call applies the method with all the positional and keyword arguments it was built with"),
         Rule("KWARGS-KEPT", _lazy("extra", "rule_kwargs_kept"), 3,
              "no given keyword (field constraint / constructor argument) is dropped because of its value"),
+        Rule("MEMO-ON-PULL", _lazy("lazy", "rule_memo_on_pull"), 4,
+             "the supplied domain is wrapped lazily, every member of it, and every member pulled is memoised before it is handed out"),
     ],
     explanation="An effect property: in which positions may a value's truthiness decide whether a row survives. The "
                 "positions are the evaluation call sites; their role is the resolved dataclass field of the receiver "
@@ -667,10 +719,20 @@ register(PropertySpec(
              "(shared with C19) the inner steps of an attribute / call chain are values: a falsy intermediate value is mapped on, not dropped"),
         Rule("DEDUP-TRUTH-UP", _lazy("binding", "rule_dedup_truth_up"), 1,
              "a conjunction reports its own truth to its parent as unknown when all that is known is that one operand is true"),
-        Rule("COVERAGE-SUBSUMPTION", _lazy("cacheidx", "rule_coverage_subsumption"), 3,
+        Rule("COVERAGE-SUBSUMPTION", _lazy("cacheidx", "rule_coverage_subsumption"), 4,
              "a stored binding covers a lookup exactly when it is contained in it: per-key test evaluated for same / other / missing"),
-        Rule("SHARED-TAIL", _lazy("lazy", "rule_shared_tail"), 1,
+        Rule("SHARED-TAIL", _lazy("lazy", "rule_shared_tail"), 3,
              "an iteration over a lazily consumed domain is handed what other live iterations pulled from the shared source"),
+        Rule("CACHED-POSITION-RESET", _lazy("history", "rule_cached_position_reset"), 1,
+             "the memo of the position-dependent duplicate-suppression keys is dropped, for the class of the node being reset, with the per-evaluation state"),
+        Rule("SET-ALGEBRA", _lazy("lazy", "rule_set_algebra"), 3,
+             "union / intersection / difference of the value container have the membership table their names say (they compute the variables an operator combines, caches and de-duplicates by)"),
+        Rule("DEDUP-UNDER-ROW-TRUTH", _lazy("binding", "rule_dedup_under_row_truth"), 5,
+             "a row is tested for being a duplicate under the truth value it is handed on with (the flag is not assigned between the test and the yield)"),
+        Rule("SOURCE-NOT-DELEGATED", _lazy("lazy", "rule_source_not_delegated"), 1,
+             "an iteration over a lazily consumed domain does not delegate to the shared one-shot source (closing the iteration would close the source)"),
+        Rule("FLATTEN-EACH", _lazy("extra", "rule_flatten_paths"), 2,
+             "each element of a flattened collection is a value of its own (own identifier), so rows for different elements are different rows"),
     ],
     explanation="An implicit join is a join only if every operator threads the binding it received to its operands and "
                 "keeps everything its operands bound. Both are provenance facts on the evaluation call sites and the "
@@ -716,6 +778,8 @@ register(PropertySpec(
              "for_all / flatten / concatenate / not_ return, on every path, the node of their name built from their arguments themselves"),
         Rule("KEY-FILTER-KEEPS", _lazy("binding", "rule_key_filter_keeps"), 4,
              "filters that compute the variables identifying a row keep plain variables and one-to-many mappings"),
+        Rule("QUANT-NOT-STRIPPED", _lazy("subquery", "rule_quant_not_stripped"), 1,
+             "where a quantified sub-query is replaced by its selected variable, the quantifier (its conditions) is handed on as well"),
     ],
     explanation="UNNEST is 'one row per inner element, all other variables keep the binding that produced it': the "
                 "first half is a path property of one small generator, the second is the BIND-KEEP provenance rule at "
@@ -747,8 +811,10 @@ register(PropertySpec(
              "(shared with C04) that reset reaches every node of the tree"),
         Rule("CLEAR-COMPLETE", _lazy("cacheidx", "rule_clear_complete"), 4,
              "(shared with C20) clearing an index (after an abandoned evaluation; a class's registry store) empties every store and withdraws the coverage marks"),
-        Rule("SHARED-TAIL", _lazy("lazy", "rule_shared_tail"), 1,
+        Rule("SHARED-TAIL", _lazy("lazy", "rule_shared_tail"), 3,
              "an iteration over a lazily consumed domain is handed what other live iterations pulled from the shared source"),
+        Rule("SOURCE-NOT-DELEGATED", _lazy("lazy", "rule_source_not_delegated"), 1,
+             "an iteration over a lazily consumed domain does not delegate to the shared one-shot source (closing the iteration would close the source)"),
     ],
     explanation="Laziness is preserved iff nothing on the path from the user's domain to the user's next() materialises a "
                 "stream. That is a may-materialise taint analysis over every function that handles evaluation streams or "
@@ -797,8 +863,22 @@ register(PropertySpec(
              "a symbolic method call applies the method with all the positional and keyword arguments it was built with"),
         Rule("ROW-FRESH", _lazy("extra", "rule_row_fresh"), 1,
              "(shared with C02) incl. the exception for Union.evaluate_right, which stands only while or_ never builds a Union"),
-        Rule("SHARED-TAIL", _lazy("lazy", "rule_shared_tail"), 1,
+        Rule("SHARED-TAIL", _lazy("lazy", "rule_shared_tail"), 3,
              "an iteration over a lazily consumed domain is handed what other live iterations pulled from the shared source"),
+        Rule("CACHED-POSITION-RESET", _lazy("history", "rule_cached_position_reset"), 1,
+             "the memo of the position-dependent duplicate-suppression keys is dropped, for the class of the node being reset, with the per-evaluation state"),
+        Rule("REPLAY-ONE-ENTRY", _lazy("cacheidx", "rule_replay_one_entry"), 1,
+             "a lookup that leaves a cache key open is answered from the wildcard child or from the children that bind the key, not both (one result is stored under partial and full rows)"),
+        Rule("SET-ALGEBRA", _lazy("lazy", "rule_set_algebra"), 3,
+             "union / intersection / difference of the value container have the membership table their names say (they compute the variables an operator combines, caches and de-duplicates by)"),
+        Rule("COVERAGE-SUBSUMPTION", _lazy("cacheidx", "rule_coverage_subsumption"), 4,
+             "the seen-set (which decides what a duplicate is) reports a binding as seen only through the per-key containment test"),
+        Rule("DEDUP-UNDER-ROW-TRUTH", _lazy("binding", "rule_dedup_under_row_truth"), 5,
+             "a row is tested for being a duplicate under the truth value it is handed on with (the flag is not assigned between the test and the yield)"),
+        Rule("VALUE-IDENTITY", _lazy("extra", "rule_value_identity"), 5,
+             "two wrapped values are the same exactly when their identifiers agree (equality = the identifier, which the hash is)"),
+        Rule("EVAL-FLAG", _lazy("history", "rule_eval_flag"), 3,
+             "flags that say 'this part is being evaluated' are cleared on every exit, also when the evaluation is abandoned - a stale flag changes which rows the next evaluation yields"),
     ],
     explanation="All clauses are weak but necessary: arguments evaluated under the current binding, one construction "
                 "per combination, no retrieval instead of construction for inferred variables, existing objects passed "
@@ -840,6 +920,10 @@ register(PropertySpec(
              "(shared with C02)"),
         Rule("INSERT-RETRIEVABLE", _lazy("cacheidx", "rule_coverage_only_if_stored"), 1,
              "with an empty key list (a comparison between two literals) insert() records nothing as covered"),
+        Rule("VALUE-IDENTITY", _lazy("extra", "rule_value_identity"), 5,
+             "two wrapped values are the same exactly when their identifiers agree (equality = the identifier, which the hash is)"),
+        Rule("FLATTEN-EACH", _lazy("extra", "rule_flatten_paths"), 2,
+             "each element of a flattened collection is a value of its own (own identifier), so rows for different elements are different rows"),
     ],
     explanation="Two of the six listed rewrites are decided: mirrored comparisons and contains/in_, by the OPDEN "
                 "denotation rule (C01). Commutativity/associativity of and/or, declaration/selection order and domain "
